@@ -1,4 +1,71 @@
-(* C09 — AOFSHRINK preserves the dataset (property theorems; work in progress). *)
+(* C09 — AOFSHRINK preserves the dataset.
+   This file holds only the property theorems, each closed by a lemma of Proofs/ShrinkProofs.v,
+   and closed examples showing that the hypotheses are satisfiable by non-trivial states. *)
 From Coq Require Import List NArith ZArith Bool.
 From T38 Require Import Base.Bytes Base.SMap Model.Shrink Proofs.ShrinkProofs.
 Import ListNotations.
+
+(* Writers that do not RENAME may run between any two locked sections of the rewrite: once the
+   scan loops are over, snapshot ++ shrinklog replays to the live dataset, for any batch sizes. *)
+Theorem c09_concurrent_partial :
+  forall mk mi s0 sched, wf s0 -> no_rename sched = true ->
+    let r := run_sched mk mi sched (run_init s0) in
+    sh_done (r_sh r) = true ->
+    same_data (replay (newfile r) []) (r_live r).
+Proof. exact concurrent_partial. Qed.
+Print Assumptions c09_concurrent_partial.
+
+(* No writer at all: the new file replays to the dataset the rewrite started from. *)
+Theorem c09_quiescent :
+  forall mk mi s n, wf s ->
+    let r := run_sched mk mi (repeat Step n) (run_init s) in
+    sh_done (r_sh r) = true -> same_data (replay (newfile r) []) s.
+Proof. exact quiescent. Qed.
+Print Assumptions c09_quiescent.
+
+(* Known finding (open): with RENAME the property fails, with the real batch sizes.
+   Witness "lost collection": after the first keys batch b..i (cursor at m), m is renamed to a;
+   the rewrite never visits a, and replaying RENAME m a on the snapshot fails with key-not-found. *)
+Theorem c09_rename_refuted :
+  exists s0 sched, wf s0 /\ sh_done (r_sh (run_sched maxkeys maxids sched (run_init s0))) = true /\
+    exists k i, lookup k i (replay (newfile (run_sched maxkeys maxids sched (run_init s0))) []) <>
+                lookup k i (r_live (run_sched maxkeys maxids sched (run_init s0))).
+Proof. exact rename_refuted. Qed.
+Print Assumptions c09_rename_refuted.
+
+(* Witness "replayed twice": RENAME A B; SET A 1 y logged before the snapshot of A and B is taken:
+   the replayed RENAME overwrites the snapshot of B with the new A. *)
+Theorem c09_rename_dup_refuted :
+  exists s0 sched, wf s0 /\ sh_done (r_sh (run_sched maxkeys maxids sched (run_init s0))) = true /\
+    exists k i, lookup k i (replay (newfile (run_sched maxkeys maxids sched (run_init s0))) []) <>
+                lookup k i (r_live (run_sched maxkeys maxids sched (run_init s0))).
+Proof. exact rename_dup_refuted. Qed.
+Print Assumptions c09_rename_dup_refuted.
+
+(* Crash at any point of the final section, repaired start-up: the recovered dataset is the one of
+   the flushed live file or the one including the accepted-but-unflushed commands. *)
+Theorem c09_crash_points :
+  forall fi c,
+    same_data (replay (f_snap fi ++ f_slog fi) []) (replay (f_live fi ++ f_pend fi) []) ->
+    let d := recover_dir (crash_at fi c) in
+    same_data d (replay (f_live fi) []) \/ same_data d (replay (f_live fi ++ f_pend fi) []).
+Proof. exact crash_points. Qed.
+Print Assumptions c09_crash_points.
+
+(* Pinned start-up: a crash between the two renames leaves an empty database. *)
+Theorem c09_crash_orig_refuted :
+  exists fi,
+    same_data (replay (f_snap fi ++ f_slog fi) []) (replay (f_live fi ++ f_pend fi) []) /\
+    (exists k i v, lookup k i (replay (f_live fi) []) = Some v) /\
+    recover_dir_orig (crash_at fi CP_after_rename_bak) = [].
+Proof. exact crash_orig_refuted. Qed.
+Print Assumptions c09_crash_orig_refuted.
+
+(* ... and that is the only bad crash point of the pinned start-up. *)
+Theorem c09_crash_orig_partial :
+  forall fi c, c <> CP_after_rename_bak ->
+    same_data (replay (f_snap fi ++ f_slog fi) []) (replay (f_live fi ++ f_pend fi) []) ->
+    let d := recover_dir_orig (crash_at fi c) in
+    same_data d (replay (f_live fi) []) \/ same_data d (replay (f_live fi ++ f_pend fi) []).
+Proof. exact crash_orig_partial. Qed.
+Print Assumptions c09_crash_orig_partial.
